@@ -103,6 +103,18 @@ EARLY_THOROUGH = EARLY_QUICK + [
 # FIRST stage is still running; external and alias kinds in every position (quick too)
 EARLY3 = [(p, m, r) for p in ("ext_slowbig", "thr_slowbig", "ext_big") for m in ("ext_head1", "thr_head1") for r in ("ext_eat", "thr_ok")]
 
+# a long-lived upstream stage that never touches its pipe (closing the pipe does not stop it) in
+# front of a fast last stage: the command may only return once that stage is over and reaped
+SLEEP_QUICK = [
+    (("ext_sleep", "ext_ok"), "!()"),
+    (("ext_sleep", "ext_ok"), "$()"),
+    (("ext_sleep", "ext_ok", "thr_ok"), "bare"),
+    (("thr_sleep", "ext_ok"), "!()"),
+]
+SLEEP_THOROUGH = [((u, l), c) for u in ("ext_sleep", "thr_sleep") for l in ("ext_ok", "thr_ok") for c in CAPTURES] + [
+    ((u, "ext_ok", l), c) for u in ("ext_sleep", "thr_sleep") for l in ("ext_ok", "thr_ok") for c in ("bare", "!()")
+]
+
 # spawn failures that are not OSErrors, the natural way: an exported variable with a NUL byte makes
 # every Popen() raise ValueError('embedded null byte'); a NUL in argv is escaped by xonsh (control)
 NUL_SHAPES_QUICK = [(("ext_ok",), c) for c in CAPTURES] + [(st, c) for st in (("ext_ok", "ext_ok"), ("thr_ok", "ext_ok"), ("ext_ok", "thr_ok")) for c in ("bare", "$()")]
@@ -163,6 +175,8 @@ REP = {
     "ext_killed": "ext_ok",
     "ext_nularg": "ext_ok",
     "thr_slowbig": "thr_ok",
+    "ext_sleep": "ext_ok",
+    "thr_sleep": "thr_ok",
     "nonexec": "nosuch",
     "dir": "nosuch",
     "nonexec_rel": "nosuch",
@@ -191,6 +205,7 @@ CLAUSE = {
     "sigint-probe": "Ctrl-C still interrupts",
     "env": "environment unchanged apart from documented effects",
     "hang": "repeating a command cannot wedge the session",
+    "returned-early": "no still-running foreground children (the command returned while one of its foreground stages was still running)",
     "tty-owner": "terminal ownership unchanged (the shell is the terminal's foreground process group again)",
     "tty-attrs": "terminal ownership unchanged (terminal attributes as before)",
 }
@@ -234,6 +249,7 @@ def main_space(thorough):
                         out.append((stages, cap, red))
         early, ecaps, ereds = EARLY_THOROUGH, CAPTURES, ["none", ">out", "2>&1"]
         out += [(st, cap, "none") for st in EARLY3 for cap in CAPTURES]
+        out += [(st, cap, "none") for st, cap in SLEEP_THOROUGH]
     else:
         for n in (1, 2):
             for stages in itertools.product(KINDS, repeat=n):
@@ -243,6 +259,7 @@ def main_space(thorough):
                             out.append((stages, cap, red))
         early, ecaps, ereds = EARLY_QUICK, ["bare", "$()", "!()"], ["none"]
         out += [(st, cap, "none") for st in EARLY3 for cap in ("bare", "$()")]
+        out += [(st, cap, "none") for st, cap in SLEEP_QUICK]
     for stages in early:
         for cap in ecaps:
             for red in ereds:
@@ -284,8 +301,13 @@ def fault_shapes(thorough):
     return out
 
 
+_SLEEP_REPS = 2  # quick: 1 (set in run() before any case is built)
+
+
 def _mk_case(stages, cap, red, fault=None, shims=False):
-    return {"stages": list(stages), "capture": cap, "redirect": red, "fault": fault, "reps": 3, "shims": bool(shims or fault)}
+    # the sleeping stages cost SLEEP_S per repetition: two repetitions there (quick: one)
+    reps = _SLEEP_REPS if any(k.endswith("_sleep") for k in stages) else 3
+    return {"stages": list(stages), "capture": cap, "redirect": red, "fault": fault, "reps": reps, "shims": bool(shims or fault)}
 
 
 def _cid(case):
@@ -355,6 +377,13 @@ def judge(res):
                 v["tty-owner"] = {"observed": {tag: s["tty"].get("owner") or s["tty"].get("error")}, "expected": "tcgetpgrp(terminal) == the shell's own process group"}
             if s["tty"].get("attrs") != s0["tty"].get("attrs"):
                 v["tty-attrs"] = {"observed": {tag: s["tty"].get("attrs")}, "expected": s0["tty"].get("attrs")}
+    # returned while a stage was still running (after a short grace).  When the stage is also left
+    # running / un-reaped afterwards, those signatures name the defect and this one is not repeated.
+    left = any(k.startswith(("child-left", "zombie")) for k in v), any(k.startswith("thread-left") for k in v)
+    for what, covered in (("child", left[0]), ("ProcProxyThread", left[1])):
+        counts = [r.get(what, 0) for r in res.get("running_at_return", [])]
+        if any(counts) and not covered:
+            v[f"returned-early[{what}]"] = {"observed": {"stages still running 0.3 s after each repetition returned": counts}, "expected": "0: a command returns when all of its foreground stages are over"}
     if "probe_after" in res and res["probe_after"] != "KeyboardInterrupt":
         v[f"sigint-probe[{res['probe_after']}]"] = {"observed": {"self-sent SIGINT": res["probe_after"], "SIGINT handler": s3["handlers"]["SIGINT"]}, "expected": "KeyboardInterrupt in the main thread"}
     return v
@@ -402,7 +431,7 @@ def _fault_points(log):
 
 # Signature classes that can depend on real-time scheduling (several stage threads racing): they
 # are reported only when the same case shows them in 3 runs out of 3.
-CONFIRM = ("child-left", "thread-left", "sigint-probe", "fd-closed", "env", "cwd", "tty-")
+CONFIRM = ("child-left", "thread-left", "sigint-probe", "fd-closed", "env", "cwd", "tty-", "returned-early")
 
 
 def _needs_confirmation(r):
@@ -483,6 +512,10 @@ class Reducer:
         return r["sigs"]
 
     def reduce(self, cid, sig, on_demand=True):
+        if any(k.endswith("_sleep") for k in cid[0]) and sig.startswith(("zombie", "child-left", "thread-left", "returned-early")):
+            # 'a long-lived upstream stage is not waited for' depends on which wait path the capture
+            # form and the last stage select (iterated / not): every such shape keeps its own key
+            return cid
         path = []
         on_demand = on_demand and not sig.startswith("hang")  # never go looking for further 20 s hangs
         while True:
@@ -676,13 +709,15 @@ def _run_nul_family(ctx, results):
 
 
 def run(ctx):
+    global _SLEEP_REPS
     H.warm_up()
+    _SLEEP_REPS = ctx.pick(1, 2)
     space = main_space(ctx.thorough)
     fshapes = fault_shapes(ctx.thorough)
     ctx.log(f"main space {len(space)} cases; {len(fshapes)} shapes for fault enumeration")
     main_cases = [_mk_case(*c) for c in space]
     rec_cases = [_mk_case(*c, shims=True) for c in fshapes]
-    out = common.pmap(_run, main_cases + rec_cases, ctx.jobs, chunk=2, init=_init, seed=ctx.seed)
+    out = common.pmap(_run, main_cases + rec_cases, ctx.jobs, chunk=1, init=_init, seed=ctx.seed)
     main_res, rec_res = out[: len(main_cases)], out[len(main_cases) :]
     ctx.log("fault-free runs done")
 
@@ -733,7 +768,7 @@ def run(ctx):
 
     # confirmation of scheduling-sensitive observations: 3 out of 3
     todo = [cid for cid in order if _needs_confirmation(results[cid])]
-    again = common.pmap(_run, [cases_by_cid[c] for c in todo for _ in range(2)], ctx.jobs, chunk=2, init=_init, seed=ctx.seed)
+    again = common.pmap(_run, [cases_by_cid[c] for c in todo for _ in range(2)], ctx.jobs, chunk=1, init=_init, seed=ctx.seed)
     unconfirmed = Counter()
     steady_death = {}  # cid -> [death signatures seen in 3 runs out of 3]
     for i, cid in enumerate(todo):
@@ -764,13 +799,13 @@ def run(ctx):
     # scheduling-sensitive classes (its cases are re-run twice; 3 out of 3 or it is dropped)
     support = Counter((m, sig) for (_c, sig), m in prov.items())
     confirmed = set(todo)
-    rare = sorted({c for (c, sig), m in prov.items() if support[(m, sig)] < 3 and c not in confirmed and not sig.startswith("hang")}, key=repr)
-    again2 = common.pmap(_run, [cases_by_cid[c] for c in rare for _ in range(2)], ctx.jobs, chunk=2, init=_init, seed=ctx.seed)
+    rare = sorted({c for (c, sig), m in prov.items() if support[(m, sig)] < 3 and c not in confirmed and not sig.startswith("hang") and not any(k.endswith("_sleep") for k in c[0])}, key=repr)
+    again2 = common.pmap(_run, [cases_by_cid[c] for c in rare for _ in range(2)], ctx.jobs, chunk=1, init=_init, seed=ctx.seed)
     for i, cid in enumerate(rare):
         r = results[cid]
         runs = again2[2 * i : 2 * i + 2]
         for sig in list(r["sigs"]):
-            if (cid, sig) in prov and not sig.startswith("hang") and support[(prov[(cid, sig)], sig)] < 3 and not all(sig in a["sigs"] and not a["deaths"] for a in runs):
+            if (cid, sig) in prov and not sig.startswith("hang") and not any(k.endswith("_sleep") for k in cid[0]) and support[(prov[(cid, sig)], sig)] < 3 and not all(sig in a["sigs"] and not a["deaths"] for a in runs):
                 unconfirmed[sig.split("[")[0]] += 1
                 del r["sigs"][sig]
                 del prov[(cid, sig)]
